@@ -58,9 +58,71 @@ pub struct Scope {
     pub parent: Option<Rc<Scope>>,
 }
 
+// Tables, scopes and closures reference each other in cycles (`_G._G`, a local function captured by its own scope),
+// which reference counting never frees.  Every table and scope is therefore registered here, and when the last live
+// interpreter of the thread is dropped the registered objects are emptied, which breaks every cycle.
+thread_local! {
+    static REG_TABLES: RefCell<Vec<std::rc::Weak<TableObj>>> = RefCell::new(Vec::new());
+    static REG_SCOPES: RefCell<Vec<std::rc::Weak<Scope>>> = RefCell::new(Vec::new());
+    static LIVE_INTERPS: std::cell::Cell<u32> = std::cell::Cell::new(0);
+}
+
+pub fn interp_created() {
+    LIVE_INTERPS.with(|c| c.set(c.get() + 1));
+}
+
+pub fn interp_dropped() {
+    let left = LIVE_INTERPS.with(|c| {
+        c.set(c.get().saturating_sub(1));
+        c.get()
+    });
+    if left > 0 {
+        return;
+    }
+    let tables: Vec<std::rc::Weak<TableObj>> = REG_TABLES.with(|r| std::mem::take(&mut *r.borrow_mut()));
+    let scopes: Vec<std::rc::Weak<Scope>> = REG_SCOPES.with(|r| std::mem::take(&mut *r.borrow_mut()));
+    // take the contents out first, drop them afterwards (dropping may run arbitrary Drop code of nested values)
+    let mut garbage_t = Vec::new();
+    for w in &tables {
+        if let Some(t) = w.upgrade() {
+            if let Ok(mut d) = t.data.try_borrow_mut() {
+                garbage_t.push(std::mem::take(&mut *d));
+            }
+        }
+    }
+    let mut garbage_s = Vec::new();
+    for w in &scopes {
+        if let Some(sc) = w.upgrade() {
+            if let Ok(mut v) = sc.vars.try_borrow_mut() {
+                garbage_s.push(std::mem::take(&mut *v));
+            }
+        }
+    }
+    // the variable cells themselves may be shared with closures: empty them too
+    for vars in &garbage_s {
+        for (_, cell) in vars {
+            if let Ok(mut c) = cell.try_borrow_mut() {
+                *c = Value::Nil;
+            }
+        }
+    }
+    drop(garbage_t);
+    drop(garbage_s);
+}
+
+impl TableObj {
+    pub fn alloc(id: u32, hostile: u32) -> Rc<TableObj> {
+        let t = Rc::new(TableObj { id, hostile, data: RefCell::new(TableData::default()) });
+        REG_TABLES.with(|r| r.borrow_mut().push(Rc::downgrade(&t)));
+        t
+    }
+}
+
 impl Scope {
     pub fn new(parent: Option<Rc<Scope>>) -> Rc<Scope> {
-        Rc::new(Scope { vars: RefCell::new(Vec::new()), parent })
+        let s = Rc::new(Scope { vars: RefCell::new(Vec::new()), parent });
+        REG_SCOPES.with(|r| r.borrow_mut().push(Rc::downgrade(&s)));
+        s
     }
     pub fn declare(&self, name: &str, v: Value) {
         self.vars.borrow_mut().push((Rc::from(name), Rc::new(RefCell::new(v))));
